@@ -34,6 +34,9 @@ func init() {
 
 func c13Doc(c *Case, div int) *xdoc.Doc {
 	dg := c.GShared("doc", int64(c.Index/div))
+	if (c.Index/div)%8 == 5 {
+		return dg.DeepTree()
+	}
 	if dg.Chance(0.25) {
 		return dg.WideTree(4, 4)
 	}
